@@ -103,6 +103,7 @@ class GrangerAnalyzer(BaseAnalyzer):
         self._order = order
         self._criterion = criterion
         self._max_order = max_order
+        self._ij_default = ij is None
         if ij is None:
             # The following gets the full list of combinations of
             # non-same i's and j's:
@@ -112,6 +113,20 @@ class GrangerAnalyzer(BaseAnalyzer):
                           y[tril_indices_from(y, -1)]))
         else:
             self.ij = ij
+
+    def set_input(self, input):
+        """Set the input of the analyzer and refresh what the constructor
+        takes from it (data, sampling rate, number of processes and, unless
+        given, the list of pairs)"""
+        BaseAnalyzer.set_input(self, input)
+        self.data = input.data
+        self.sampling_rate = input.sampling_rate
+        self._n_process = input.shape[0]
+        if self._ij_default:
+            x, y = np.meshgrid(np.arange(self._n_process),
+                               np.arange(self._n_process))
+            self.ij = list(zip(x[tril_indices_from(x, -1)],
+                          y[tril_indices_from(y, -1)]))
 
     @desc.setattr_on_read
     def _model(self):
